@@ -1,3 +1,4 @@
+pub mod chunks;
 pub mod driver;
 pub mod graph;
 pub mod interp;
